@@ -8,6 +8,11 @@
 (* for every runtime tensor of a selected operator, whatever the split into  *)
 (* sessions, and "previous result untouched" is an invariant of the heap of  *)
 (* caller-owned results.                                                     *)
+(* A model may have several signatures (one subgraph each): a session        *)
+(* calibrates ONE signature, only that subgraph's tensors are folded, the    *)
+(* tensors of the other subgraphs keep the (possibly still empty) entry they *)
+(* had.  A session may also run on an EMPTY dataset: its result holds the    *)
+(* empty placeholders created at initialisation.                             *)
 (* Modelled as the code does it: a new Calibrator per call, load = deep copy,*)
 (* initialisation only if empty (constants get their statistics there),      *)
 (* per sample the operator list grows by one more pair of virtual I/O        *)
@@ -17,12 +22,13 @@
 EXTENDS Integers, Sequences, FiniteSets, TLC, Json
 
 CONSTANTS
-  Ops,          \* seq of [ins, outs]: runtime tensor ids of the operators of the calibrated subgraph (constants omitted)
-  GIns, GOuts,  \* graph inputs / outputs (virtual INPUT / OUTPUT operators)
+  Ops,          \* seq of [ins, outs, sub]: runtime tensor ids of the operators (constants omitted) and the subgraph they belong to
+  GIns, GOuts,  \* per subgraph: graph inputs / outputs (virtual INPUT / OUTPUT operators)
   NT,           \* number of runtime tensors (ids 0..NT-1)
   NSamples,     \* dataset 1..NSamples, consumed in order
   MaxSessions,
   Fixes         \* "deepcopy": load copies the previous result (present in the code); absent => aliasing, for the self-test
+                \*             (with "shallow": only the outer dictionary is copied and the first sample is written INTO an empty entry)
                 \* "once": per-sample updated set (present in the code)
 
 Tensors == 0..(NT-1)
@@ -34,53 +40,62 @@ VARIABLES
   selIn, selOut,
   results,    \* caller-owned heap: seq of calibration results (each a function tensor -> fold sequence or Absent)
   snap,       \* ghost: value of every result when it was returned
-  base,       \* ghost: for every result, <<index of the result it resumed from, first sample, last sample>>
+  base,       \* ghost: for every result, <<index of the result it resumed from, first sample, last sample (first-1: empty), signature>>
   cur,        \* the running Calibrator's _model_qsvs
   curAlias,   \* index of the caller-owned result that `cur` aliases (0 = none); only without the "deepcopy" fix
   nextS,      \* next unconsumed sample
   sessEnd,    \* last sample of the running session
+  sig,        \* signature (= subgraph) the running session calibrates
   s,          \* sample being processed (0 = between samples)
   opi,        \* position in the operator list of the current sample
   ioCopies,   \* how many pairs of virtual I/O operators the operator list holds by now
   updated,    \* per-sample set of tensors already folded
   pc
-vars == <<sel, selIn, selOut, results, snap, base, cur, curAlias, nextS, sessEnd, s, opi, ioCopies, updated, pc>>
+vars == <<sel, selIn, selOut, results, snap, base, cur, curAlias, nextS, sessEnd, sig, s, opi, ioCopies, updated, pc>>
+NSig == Len(GIns)
 
 SeqRange(q) == {q[k] : k \in 1..Len(q)}
 Mentions(o) == SeqRange(o.ins) \cup SeqRange(o.outs)
-\* the operator list seen while processing a sample: real operators, then ioCopies x (INPUT, OUTPUT)
-OpAt(k) == IF k <= Len(Ops) THEN [tens |-> Mentions(Ops[k]), on |-> sel[k]]
-           ELSE IF (k - Len(Ops)) % 2 = 1 THEN [tens |-> SeqRange(GIns), on |-> selIn]
-           ELSE [tens |-> SeqRange(GOuts), on |-> selOut]
-NOpsNow == Len(Ops) + 2 * ioCopies
-\* runtime tensors of selected operators: the ones that must carry statistics
-Selected == UNION {Mentions(Ops[k]) : k \in {k \in 1..Len(Ops) : sel[k]}}
-            \cup (IF selIn THEN SeqRange(GIns) ELSE {}) \cup (IF selOut THEN SeqRange(GOuts) ELSE {})
-\* _initialize_model_qsvs walks the real operators only (no virtual ops yet): empty statistics for their runtime tensors
-InitQsvs == [t \in Tensors |-> IF t \in UNION {Mentions(Ops[k]) : k \in {k \in 1..Len(Ops) : sel[k]}} THEN <<>> ELSE Absent]
+\* the operator list of the calibrated subgraph seen while processing a sample: its real operators, then ioCopies x (INPUT, OUTPUT)
+OpsOf(g) == SelectSeq([k \in 1..Len(Ops) |-> k], LAMBDA k : Ops[k].sub = g)
+OpAt(k) == LET mine == OpsOf(sig) IN
+           IF k <= Len(mine) THEN [tens |-> Mentions(Ops[mine[k]]), on |-> sel[mine[k]]]
+           ELSE IF (k - Len(mine)) % 2 = 1 THEN [tens |-> SeqRange(GIns[sig]), on |-> selIn]
+           ELSE [tens |-> SeqRange(GOuts[sig]), on |-> selOut]
+NOpsNow == Len(OpsOf(sig)) + 2 * ioCopies
+\* runtime tensors of the selected real operators (of every subgraph): they get an (empty) entry at initialisation
+RealSelected == UNION {Mentions(Ops[k]) : k \in {k \in 1..Len(Ops) : sel[k]}}
+\* runtime tensors of selected operators: the ones that must carry statistics once their signature has been calibrated
+Selected == RealSelected \cup (IF selIn THEN UNION {SeqRange(GIns[g]) : g \in 1..NSig} ELSE {})
+                         \cup (IF selOut THEN UNION {SeqRange(GOuts[g]) : g \in 1..NSig} ELSE {})
+\* subgraph a runtime tensor belongs to
+SubOf(t) == CHOOSE g \in 1..NSig : t \in SeqRange(GIns[g]) \cup UNION {Mentions(Ops[k]) : k \in {k \in 1..Len(Ops) : Ops[k].sub = g}}
+\* _initialize_model_qsvs walks the real operators of all subgraphs (no virtual ops yet): empty statistics for their runtime tensors
+InitQsvs == [t \in Tensors |-> IF t \in RealSelected THEN <<>> ELSE Absent]
 IsEmptyDict(d) == \A t \in Tensors : d[t] = Absent
 
 Init ==
   /\ sel \in [1..Len(Ops) -> BOOLEAN] /\ selIn \in BOOLEAN /\ selOut \in BOOLEAN
   /\ results = <<>> /\ snap = <<>> /\ base = <<>>
   /\ cur = [t \in Tensors |-> Absent] /\ curAlias = 0
-  /\ nextS = 1 /\ sessEnd = 0 /\ s = 0 /\ opi = 0 /\ ioCopies = 0 /\ updated = {} /\ pc = "idle"
+  /\ nextS = 1 /\ sessEnd = 0 /\ sig = 1 /\ s = 0 /\ opi = 0 /\ ioCopies = 0 /\ updated = {} /\ pc = "idle"
 
-\* Quantizer.calibrate(data = samples nextS..last, previous_calibration_result = results[prev] or None)
-StartSession(prev, last) ==
-  /\ pc = "idle" /\ Len(results) < MaxSessions /\ nextS <= NSamples /\ last \in nextS..NSamples
+\* Quantizer.calibrate(data = samples nextS..last (none when last = nextS - 1), signature_key = g,
+\*                     previous_calibration_result = results[prev] or None)
+StartSession(prev, last, g) ==
+  /\ pc = "idle" /\ Len(results) < MaxSessions /\ last \in (nextS - 1)..NSamples
   /\ prev \in 0..Len(results)
   /\ LET loaded == IF prev = NoPrev THEN [t \in Tensors |-> Absent] ELSE results[prev]
      IN /\ cur' = IF IsEmptyDict(loaded) THEN InitQsvs ELSE loaded
         /\ curAlias' = IF prev # NoPrev /\ "deepcopy" \notin Fixes /\ ~IsEmptyDict(loaded) THEN prev ELSE 0
-  /\ base' = Append(base, <<prev, nextS, last>>)
-  /\ sessEnd' = last /\ s' = 0 /\ opi' = 0 /\ ioCopies' = 0 /\ updated' = {} /\ pc' = "session"
+  /\ base' = Append(base, <<prev, nextS, last, g>>)
+  /\ sessEnd' = last /\ sig' = g /\ s' = 0 /\ opi' = 0 /\ ioCopies' = 0 /\ updated' = {} /\ pc' = "session"
   /\ UNCHANGED <<sel, selIn, selOut, results, snap, nextS>>
 
 SampleBegin ==
   /\ pc = "session" /\ s = 0 /\ nextS <= sessEnd
   /\ s' = nextS /\ nextS' = nextS + 1 /\ updated' = {} /\ ioCopies' = ioCopies + 1 /\ opi' = 1
-  /\ UNCHANGED <<sel, selIn, selOut, results, snap, base, cur, curAlias, sessEnd, pc>>
+  /\ UNCHANGED <<sel, selIn, selOut, results, snap, base, cur, curAlias, sessEnd, sig, pc>>
 
 \* one operator of the list: fold the sample into every runtime tensor of the operator not yet folded this sample
 Fold(d, ts) == [t \in Tensors |-> IF t \in ts THEN (IF d[t] = Absent THEN <<s>> ELSE Append(d[t], s)) ELSE d[t]]
@@ -90,36 +105,42 @@ OpStep ==
          ts == IF o.on THEN (IF "once" \in Fixes THEN o.tens \ updated ELSE o.tens) ELSE {}
      IN /\ cur' = Fold(cur, ts)
         /\ updated' = updated \cup ts
-        \* without the deep copy the caller's previous result is the same object
-        /\ results' = IF curAlias # 0 THEN [results EXCEPT ![curAlias] = Fold(@, ts)] ELSE results
+        \* without the deep copy the caller's previous result is the same object; with only a shallow copy the inner
+        \* dictionaries are shared, and an entry that is still empty receives its first sample in place
+        /\ results' = IF curAlias = 0 THEN results
+                       ELSE IF "shallow" \in Fixes THEN [results EXCEPT ![curAlias] = Fold(@, {t \in ts : cur[t] = <<>> /\ @[t] = <<>>})]
+                       ELSE [results EXCEPT ![curAlias] = Fold(@, ts)]
   /\ opi' = opi + 1
-  /\ UNCHANGED <<sel, selIn, selOut, snap, base, curAlias, nextS, sessEnd, s, ioCopies, pc>>
+  /\ UNCHANGED <<sel, selIn, selOut, snap, base, curAlias, nextS, sessEnd, sig, s, ioCopies, pc>>
 
 SampleEnd ==
   /\ pc = "session" /\ s # 0 /\ opi > NOpsNow
   /\ s' = 0 /\ opi' = 0
-  /\ UNCHANGED <<sel, selIn, selOut, results, snap, base, cur, curAlias, nextS, sessEnd, ioCopies, updated, pc>>
+  /\ UNCHANGED <<sel, selIn, selOut, results, snap, base, cur, curAlias, nextS, sessEnd, sig, ioCopies, updated, pc>>
 
 \* calib.get_model_qsvs() is handed to the caller
 SessionEnd ==
   /\ pc = "session" /\ s = 0 /\ nextS > sessEnd
   /\ results' = Append(results, cur) /\ snap' = Append(snap, cur)
   /\ pc' = "idle" /\ curAlias' = 0
-  /\ UNCHANGED <<sel, selIn, selOut, base, cur, nextS, sessEnd, s, opi, ioCopies, updated>>
+  /\ UNCHANGED <<sel, selIn, selOut, base, cur, nextS, sessEnd, sig, s, opi, ioCopies, updated>>
 
-Stutter == pc = "idle" /\ (Len(results) = MaxSessions \/ nextS > NSamples) /\ UNCHANGED vars
-Next == (\E prev \in 0..MaxSessions, last \in 1..NSamples : StartSession(prev, last))
+Stutter == pc = "idle" /\ Len(results) = MaxSessions /\ UNCHANGED vars
+Next == (\E prev \in 0..MaxSessions, last \in 0..NSamples, g \in 1..NSig : StartSession(prev, last, g))
         \/ SampleBegin \/ OpStep \/ SampleEnd \/ SessionEnd \/ Stutter
 Spec == Init /\ [][Next]_vars
 
 \* ------------------------------------------------------------------ C09
 Range(a, b) == [k \in 1..(b - a + 1) |-> a + k - 1]
 RECURSIVE Expected(_, _)
-\* the fold sequence result r must carry for tensor t
+\* the fold sequence result r must carry for tensor t: the samples of the sessions of its history that ran t's signature
 Expected(r, t) == LET b == base[r] IN
-                  (IF b[1] = NoPrev \/ snap[b[1]][t] = Absent THEN <<>> ELSE Expected(b[1], t)) \o Range(b[2], b[3])
+                  (IF b[1] = NoPrev \/ snap[b[1]][t] = Absent THEN <<>> ELSE Expected(b[1], t))
+                  \o (IF SubOf(t) = b[4] THEN Range(b[2], b[3]) ELSE <<>>)
+\* a tensor that only the virtual INPUT / OUTPUT operators mention has no entry until its signature has been calibrated
+ExpectedEntry(r, t) == LET e == Expected(r, t) IN IF e = <<>> /\ t \notin RealSelected THEN Absent ELSE e
 \* exact and order-faithful: every selected runtime tensor has folded exactly the samples of its history, in order, each once
-ExactFold == \A r \in 1..Len(results) : \A t \in Selected : results[r][t] = Expected(r, t)
+ExactFold == \A r \in 1..Len(results) : \A t \in Selected : results[r][t] = ExpectedEntry(r, t)
 \* resumable: a result resumed from r0 extends r0's statistics (prefix), never restarts
 Resumes == \A r \in 1..Len(results) : base[r][1] # NoPrev =>
              \A t \in Selected : snap[base[r][1]][t] # Absent =>
@@ -133,6 +154,5 @@ OnlySelected == \A r \in 1..Len(results) : \A t \in Tensors : results[r][t] # Ab
 \* ---- behaviours for the spec -> code replay: emitted when a behaviour is complete
 Behaviour == [sel |-> sel, selIn |-> selIn, selOut |-> selOut, base |-> base,
               results |-> [r \in 1..Len(results) |-> [t \in Tensors |-> results[r][t]]]]
-EmitB == (pc = "idle" /\ Len(results) >= 1 /\ (Len(results) = MaxSessions \/ nextS > NSamples))
-           => PrintT(<<"BEHAV", ToJson(Behaviour)>>)
+EmitB == (pc = "idle" /\ Len(results) = MaxSessions) => PrintT(<<"BEHAV", ToJson(Behaviour)>>)
 =============================================================================
